@@ -120,7 +120,17 @@ func init() {
 			return nil
 		},
 		"vAssert": func(m *Machine, fr *frame, args []value) value {
-			m.assertV(args[0], strArg(args[1]))
+			label := strArg(args[1])
+			if m.region != "" {
+				label = m.region
+			}
+			m.assertV(args[0], label)
+			return nil
+		},
+		// vRegion(label): until cleared with "", every assertion is reported under this label
+		// (the region of a recorded finding, see known_findings.json).
+		"vRegion": func(m *Machine, fr *frame, args []value) value {
+			m.region = strArg(args[0])
 			return nil
 		},
 		"vFail": func(m *Machine, fr *frame, args []value) value {
